@@ -290,12 +290,23 @@ func (p *parser) scan() (tkn token.Token, literal string, idx file.Idx) { //noli
 					p.skipSingleLineComment()
 					continue
 				case '*':
+					var comment []rune
+					hasLineTerminator := false
 					if p.mode&StoreComments != 0 {
-						comment := string(p.readMultiLineComment())
-						p.comments.AddComment(ast.NewComment(comment, idx))
-						continue
+						comment = p.readMultiLineComment()
+						for _, chr := range comment {
+							hasLineTerminator = hasLineTerminator || isLineTerminator(chr)
+						}
+						p.comments.AddComment(ast.NewComment(string(comment), idx))
+					} else {
+						hasLineTerminator = p.skipMultiLineComment()
 					}
-					p.skipMultiLineComment()
+					if hasLineTerminator && p.insertSemicolon {
+						// ES5 7.4: a multi-line comment containing a line terminator
+						// counts as a line terminator for the syntactic grammar.
+						p.insertSemicolon = false
+						p.implicitSemicolon = true
+					}
 					continue
 				default:
 					// Could be division, could be RegExp literal
@@ -508,18 +519,22 @@ func (p *parser) skipSingleLineComment() {
 	}
 }
 
-func (p *parser) skipMultiLineComment() {
+func (p *parser) skipMultiLineComment() (hasLineTerminator bool) { //nolint:nonamedreturns
 	p.read()
 	for p.chr >= 0 {
 		chr := p.chr
 		p.read()
 		if chr == '*' && p.chr == '/' {
 			p.read()
-			return
+			return hasLineTerminator
+		}
+		if isLineTerminator(chr) {
+			hasLineTerminator = true
 		}
 	}
 
 	p.errorUnexpected(0, p.chr)
+	return hasLineTerminator
 }
 
 func (p *parser) skipWhiteSpace() {
